@@ -2,6 +2,8 @@ import json
 from simple_ddl_parser import DDLParser
 BODY = "CREATE TABLE t1 (a int, b varchar(10) NOT NULL)"
 CL = [
+ ("snowflake","retention0","DATA_RETENTION_TIME_IN_DAYS = 0"), ("snowflake","max_ext0","MAX_DATA_EXTENSION_TIME_IN_DAYS = 0"), ("snowflake","change_tracking_false","CHANGE_TRACKING = FALSE"),
+ ("mysql","auto_increment0","AUTO_INCREMENT=0"), ("hql","clustered_by1","CLUSTERED BY (b) INTO 1 BUCKETS"), ("snowflake","retention90","DATA_RETENTION_TIME_IN_DAYS = 90"),
  ("snowflake","with_tag3","WITH TAG (cost_center='sales', pii='none', retention='1y')"), ("postgres","partition_by_pg2","PARTITION BY RANGE (a, b)"), ("postgres","partition_by_hash","PARTITION BY HASH (a)"),
  ("hql","partitioned_by3","PARTITIONED BY (p1 string, p2 int, p3 date)"), ("hql","clustered_by2","CLUSTERED BY (a, b) INTO 16 BUCKETS"), ("hql","tblproperties3","TBLPROPERTIES ('k1'='v1', 'k2'='v2', 'k3'='v3')"),
  ("snowflake","cluster_by2","CLUSTER BY (a, b)"), ("bigquery","options3","OPTIONS (description='d', friendly_name='f', expiration_timestamp='e')"), ("mssql","with2","WITH (DATA_COMPRESSION = PAGE, FILLFACTOR = 80)"),
